@@ -111,7 +111,17 @@ fn set_mates(records: &mut [Record]) {
         let record = &mut records[i];
         let flags = record.bam_flags;
 
-        if flags.is_segmented() && !flags.is_secondary() {
+        // Mate fields and template lengths of attached mates are not stored but rebuilt from the
+        // pair when reading. Secondary and supplementary alignments name the primary alignment of
+        // their mate rather than the next record of the template, a pair with an unmapped segment
+        // has no template length, and records without a name cannot be matched by name, so these
+        // records keep their own (detached) mate fields.
+        if flags.is_segmented()
+            && !flags.is_secondary()
+            && !flags.is_supplementary()
+            && !flags.is_unmapped()
+            && record.name.is_some()
+        {
             let name = record.name.as_ref().map(|name| name.to_owned());
 
             if let Some(j) = indices.insert(name, i) {
